@@ -41,7 +41,7 @@ def strategy(tier, phase):
                                   "param": st.integers(0, 7), "fault": st.sampled_from([0, 0, 0, 1, 2, 3]), "functional": st.booleans(), "wrap": st.sampled_from([0, 0, 1, 2, 3]),
                                   # history of the pass OBJECT: it may have processed another model before (state left over from a previous call)
                                   "prelude": st.one_of(st.just([]), st.just([]), rmodel.tape_strategy(100)),
-                                  "prelude_edit": st.one_of(st.just([]), st.just([]), st.lists(st.tuples(st.integers(0, 80), st.integers(0, 2**16)).map(list), min_size=1, max_size=3))})
+                                  "prelude_edit": st.one_of(st.just([]), st.just([]), st.lists(st.tuples(st.one_of(st.integers(0, 12), st.integers(0, 12), st.integers(0, 80)), st.integers(0, 2**16)).map(list), min_size=1, max_size=3))})
 
 
 class Boom(Exception):
